@@ -482,7 +482,23 @@ def main():
     seed = int(os.environ.get('VERIF_SEED', '0'))
     if a.prop not in families.FAMILIES:
         infra(f'unknown property {a.prop}')
-    sys.exit(decide(a.prop, a.tier, seed, a.replay))
+    try:
+        code = decide(a.prop, a.tier, seed, a.replay)
+    except SystemExit:
+        raise
+    except BaseException as ex:  # noqa: BLE001
+        # the machinery itself could not run on this code (an interface of the library that the harness or an engine relies on
+        # has changed under it): nothing ties the theorems to this code any more - a broken correspondence, reported as such
+        import traceback
+        os.makedirs(os.path.join(ROOT, 'replays'), exist_ok=True)
+        rp = os.path.join('replays', f'{a.prop}-corr-machinery.json')
+        json.dump({'property': a.prop, 'kind': 'broken-correspondence',
+                   'obligation': {'why': 'harness: the check could not be carried out on this code', 'raw': f'{type(ex).__name__}: {ex}',
+                                  'traceback': traceback.format_exc()[-1500:]},
+                   'how_to_replay': f'./check {a.prop}'}, open(os.path.join(ROOT, rp), 'w'), indent=1)
+        print(f'VIOLATION property={a.prop} replay={rp} no-failing-input-found')
+        code = 1
+    sys.exit(code)
 
 
 if __name__ == '__main__':
